@@ -133,6 +133,23 @@ def judge(case, o, exp):
              'bucket': 'value' + (':' + '+'.join(trig) if trig else ':clean'), 'extra': {'triggers': trig, 'why': why}}]
 
 
+def text_of_computed_fraction(ast, envf):
+    """the text form of a fraction that was *computed* (3*(5%*7) is 1.05 or 1.0499999999999998 depending on where the
+    15-digit normalisation happens) is not determined by the statement"""
+    ev = F.Evaluator(envf)
+    for sub in F.walk(ast):
+        if sub[0] == 'bin' and sub[1] == '&':
+            for side in (sub[2], sub[3]):
+                if any(n[0] == 'bin' and n[1] in ARITH for n in F.walk(side)):
+                    try:
+                        sv = ev.value(side)
+                    except F.OutOfDomain:
+                        return True
+                    if isinstance(sv, float) and sv != int(sv):
+                        return True
+    return False
+
+
 def reference(ast, values):
     """-> reference value, or raises OutOfDomain."""
     v = F.Evaluator(cell_env(values)).value(ast)
@@ -141,8 +158,8 @@ def reference(ast, values):
     if isinstance(v, (int, float)) and not isinstance(v, bool):
         if v != v or abs(v) >= 1e15:
             raise F.OutOfDomain('magnitude')
-    for sub in F.walk(ast):  # intermediate magnitudes
-        pass
+    if text_of_computed_fraction(ast, cell_env(values)):
+        raise F.OutOfDomain('text form of a computed fraction')
     return v
 
 
@@ -338,7 +355,7 @@ def make_cases(asts, cellspec, rnd, src):
                 cells[r] = 99  # an override must win over a workbook constant
     out = []
     for a in asts:
-        if rnd.random() < 0.85:
+        if rnd.random() < 0.35:
             a1 = make_clean(a)
             if any(t.startswith('pct') for t in triggers(F.fix_parens(a1))):
                 a1 = make_clean(a, True)
